@@ -206,12 +206,6 @@ func runH264UnmarshalSeq(avc bool, payloads [][]byte) Outcome {
 
 // oracle for C10: payloader output of well-shaped access units, fed to H264Packet, reproduces the units
 func checkH264Lossless(disable, avc bool, mtu int, calls [][][]byte, c *RNG) (cases []Tok, fail string, known string) {
-	stapDropped := false
-	defer func() {
-		if fail != "" && stapDropped {
-			known = "KF-C10-stapa-drop"
-		}
-	}()
 	p := &codecs.H264Payloader{DisableStapA: disable}
 	d := &codecs.H264Packet{IsAVC: avc}
 	var got []byte
@@ -231,9 +225,6 @@ func checkH264Lossless(disable, avc bool, mtu int, calls [][][]byte, c *RNG) (ca
 				pendingPPS = n
 			default:
 				if pendingSPS != nil && pendingPPS != nil {
-					if 5+len(pendingSPS)+len(pendingPPS) > mtu {
-						stapDropped = true
-					}
 					expect = append(expect, pendingSPS, pendingPPS)
 					pendingSPS, pendingPPS = nil, nil
 				}
